@@ -230,15 +230,23 @@ func (c *ctx) factsSettings() {
 							continue
 						}
 						if cl, ok := vs.Values[i].(*ast.CompositeLit); ok {
-							for _, el := range cl.Elts {
-								if kv, ok := el.(*ast.KeyValueExpr); ok {
-									val := exprString(p, kv.Value)
-									if s, ok := constOf(p, kv.Value); ok {
-										val = s
+							var walk func(prefix string, cl *ast.CompositeLit)
+							walk = func(prefix string, cl *ast.CompositeLit) {
+								for _, el := range cl.Elts {
+									if kv, ok := el.(*ast.KeyValueExpr); ok {
+										if inner, ok := kv.Value.(*ast.CompositeLit); ok {
+											walk(prefix+exprString(p, kv.Key)+".", inner)
+											continue
+										}
+										val := exprString(p, kv.Value)
+										if s, ok := constOf(p, kv.Value); ok {
+											val = s
+										}
+										kvs = append(kvs, "("+q(prefix+exprString(p, kv.Key))+", "+q(val)+")")
 									}
-									kvs = append(kvs, "("+q(exprString(p, kv.Key))+", "+q(val)+")")
 								}
 							}
+							walk("", cl)
 						}
 					}
 				}
